@@ -1,10 +1,11 @@
 (* Extraction of the hand-written executable models of C08. ExtrOcamlBasic only. *)
 From Coq Require Import ZArith List Extraction ExtrOcamlBasic.
 From MomoCommon Require Import GenPrelude.
-From C08 Require Gen_GrowCapacity Gen_ArrayBucket Gen_ArrayBucket_cnt Gen_ArrayBucket_s Gen_HashMultiMap Gen_VersionCheck Gen_VersionCheck_a Gen_WrapEq Gen_WrapErase Gen_AB_ops Gen_AB_copy.
+From C08 Require Gen_GrowCapacity Gen_ArrayBucket Gen_ArrayBucket_cnt Gen_ArrayBucket_s Gen_HashMultiMap Gen_VersionCheck Gen_VersionCheck_a Gen_WrapEq Gen_WrapErase Gen_AB_ops Gen_AB_copy Gen_PairIterator.
 From C08 Require ArrayBucketModel MultiMapModel WrapperModel VersionModel.
 Separate Extraction
   Gen_VersionCheck.Check_self Gen_VersionCheck.Check_cont Gen_VersionCheck_a.Check_self Gen_WrapEq.op_eq Gen_WrapErase.erase_range
+  Gen_PairIterator.pvMove
   Gen_AB_ops.AddBackCrt Gen_AB_ops.RemoveBack Gen_AB_copy.copy_ctor
   Gen_HashMultiMap.pvAddValue Gen_HashMultiMap.Remove_iter Gen_HashMultiMap.pvRemoveValues Gen_HashMultiMap.Clear
   Gen_GrowCapacity.GrowCapacity Gen_ArrayBucket.pvMakeState Gen_ArrayBucket.pvGetFastMemPoolIndex Gen_ArrayBucket.pvGetMemPoolIndex
